@@ -99,6 +99,9 @@ class Ana:
             return self.val(e.value)   # basic slicing is a view
         if isinstance(e, ast.Call):
             name = dotted(e.func)
+            for k in e.keywords:
+                if k.arg == "out":      # ufunc(..., out=X) writes into X
+                    self.writes.append((ast.unparse(e)[:80], self.val(k.value)))
             args = set()
             for a in list(e.args) + [k.value for k in e.keywords]:
                 args |= self.val(a)
